@@ -468,6 +468,11 @@ func (b *BaseStore) Load(ctx context.Context, amount int) error {
 		amount = *b.options.MaxHistory
 	}
 
+	// a non-positive limit loads everything (a size of 0 would make Join drop every entry)
+	if amount <= 0 {
+		amount = -1
+	}
+
 	var localHeads, remoteHeads []*entry.Entry
 	localHeadsBytes, err := b.Cache().Get(ctx, datastore.NewKey("_localHeads"))
 	if err != nil && err != datastore.ErrNotFound {
@@ -577,8 +582,23 @@ func (b *BaseStore) Load(ctx context.Context, amount int) error {
 
 			span.AddEvent("store-head-loaded")
 
+			// Join keeps the `size` most recent entries and slices out of bounds when the
+			// joined log holds fewer: only hand it a size the joined log can satisfy
+			size := amount
+			if size > 0 {
+				room := oplog.Len()
+				for _, e := range l.GetEntries().Slice() {
+					if _, ok := oplog.Get(e.GetHash()); !ok && e.GetLogID() == oplog.GetID() {
+						room++
+					}
+				}
+				if size > room {
+					size = -1
+				}
+			}
+
 			span.AddEvent("store-heads-joining")
-			if _, inErr = oplog.Join(l, amount); inErr != nil {
+			if _, inErr = oplog.Join(l, size); inErr != nil {
 				span.AddEvent("store-heads-joining-failed")
 				// err = fmt.Errorf("unable to join log: %w", err)
 				// TODO: log
